@@ -252,6 +252,141 @@ fn corrupt_pool(seed: &Seed, rng: &mut Rng) -> Option<(Vec<u8>, String)> {
     Some((replace_stream(&seed.bytes, &table_raw_name("_StringPool"), &pool)?, what))
 }
 
+/// Rebuilds `_StringPool` / `_StringData` from the decoded entries (lengths consistent with the texts).
+fn rebuild_pool(seed: &Seed, codepage_word: u32, entries: &[(Vec<u8>, u16)]) -> Option<Vec<u8>> {
+    let mut pool = codepage_word.to_le_bytes().to_vec();
+    let mut data = Vec::new();
+    for (bytes, rc) in entries {
+        if bytes.len() > 0xFFFF {
+            pool.extend_from_slice(&0u16.to_le_bytes());
+            pool.extend_from_slice(&((bytes.len() >> 16) as u16).to_le_bytes());
+        }
+        pool.extend_from_slice(&(bytes.len() as u16).to_le_bytes());
+        pool.extend_from_slice(&rc.to_le_bytes());
+        data.extend_from_slice(bytes);
+    }
+    let out = replace_stream(&seed.bytes, &table_raw_name("_StringPool"), &pool)?;
+    replace_stream(&out, &table_raw_name("_StringData"), &data)
+}
+
+/// Structure-preserving pool edits: the text of one entry replaced (all cells that refer to it follow:
+/// a table, column, category or key-table name changes everywhere at once), or the pool declared to be in
+/// another *valid* code page while its bytes stay.
+fn corrupt_pool_text(seed: &Seed, rng: &mut Rng) -> Option<(Vec<u8>, String)> {
+    let p = &seed.raw.pool;
+    if p.entries.is_empty() {
+        return None;
+    }
+    let mut entries: Vec<(Vec<u8>, u16)> = p.entries.iter().map(|e| (e.bytes.clone(), e.refcount)).collect();
+    let word = p.codepage_id | if p.long_refs { 0x8000_0000 } else { 0 };
+    if rng.chance(1, 3) {
+        // another valid page; a few bytes >= 0x80 make sure the decoder of that page sees non-ASCII input
+        let ids = crate::cpora::all_ids();
+        let id = if rng.chance(1, 3) { 20127 } else { *rng.pick(&ids) } as u32;
+        let k = rng.usize(3);
+        for _ in 0..k {
+            let i = rng.usize(entries.len());
+            if !entries[i].0.is_empty() {
+                let j = rng.usize(entries[i].0.len());
+                entries[i].0[j] = 0x80 | (rng.next_u64() as u8);
+            }
+        }
+        let out = rebuild_pool(seed, id | (word & 0x8000_0000), &entries)?;
+        return Some((out, format!("pool code page := {} (valid) with {} byte(s) >= 0x80 in the string data", id, k)));
+    }
+    // pick an entry; names used by the catalogs are picked more often
+    let catalog_names: Vec<usize> = p
+        .entries
+        .iter()
+        .enumerate()
+        .filter(|(_, e)| seed.raw.tables.contains_key(&e.text) || seed.raw.tables.values().any(|t| t.cols.iter().any(|c| c.name == e.text)))
+        .map(|(i, _)| i)
+        .collect();
+    let i = if !catalog_names.is_empty() && rng.chance(2, 3) { *rng.pick(&catalog_names) } else { rng.usize(entries.len()) };
+    let texts: Vec<Vec<u8>> = vec![
+        "p".repeat(60).into_bytes(),
+        "p".repeat(61).into_bytes(),
+        "p".repeat(62).into_bytes(),
+        "p".repeat(63).into_bytes(),
+        "T".repeat(31).into_bytes(),
+        "T".repeat(32).into_bytes(),
+        "T".repeat(33).into_bytes(),
+        "T".repeat(64).into_bytes(),
+        "T".repeat(65).into_bytes(),
+        "T".repeat(300).into_bytes(),
+        "é".repeat(31).into_bytes(),
+        "é".repeat(32).into_bytes(),
+        Vec::new(),
+        b"_Tables".to_vec(),
+        b"_Columns".to_vec(),
+        b"_Validation".to_vec(),
+        b"_StringPool".to_vec(),
+        b"9x".to_vec(),
+        b"a b".to_vec(),
+        b"a!b".to_vec(),
+        b"a/b".to_vec(),
+        b"a\\b".to_vec(),
+        b"a:b".to_vec(),
+        b"a;b;c".to_vec(),
+        b"Y".to_vec(),
+        b"N".to_vec(),
+        b"Identifier".to_vec(),
+        b"NoSuchCategory".to_vec(),
+        vec![0xFF, 0xFE, b'a'],
+        vec![0xE9],
+        vec![0],
+        "\u{4840}x".as_bytes().to_vec(),
+        "\u{5}SummaryInformation".as_bytes().to_vec(),
+    ];
+    let t = rng.pick(&texts).clone();
+    let old = String::from_utf8_lossy(&entries[i].0).chars().take(24).collect::<String>();
+    let shown = String::from_utf8_lossy(&t).chars().take(24).collect::<String>();
+    entries[i].0 = t.clone();
+    let out = rebuild_pool(seed, word, &entries)?;
+    Some((out, format!("pool entry {} text {:?} := {:?} ({} bytes)", i + 1, old, shown, t.len())))
+}
+
+/// Removes or duplicates one row of a catalog table (the streams are stored column by column).
+fn corrupt_catalog_rows(seed: &Seed, rng: &mut Rng) -> Option<(Vec<u8>, String)> {
+    let tname = *rng.pick(&["_Columns", "_Columns", "_Tables", "_Validation"]);
+    let t = seed.raw.tables.get(tname)?;
+    let long = seed.raw.pool.long_refs;
+    let data = seed.raw.table_streams.get(tname)?.clone();
+    let n = t.rows.len();
+    if n == 0 {
+        return None;
+    }
+    let widths: Vec<usize> = t.cols.iter().map(|c| c.width(long)).collect::<Option<Vec<_>>>()?;
+    if widths.iter().sum::<usize>() * n != data.len() {
+        return None;
+    }
+    // rows that describe the catalog tables themselves are picked more often
+    let own: Vec<usize> = (0..n)
+        .filter(|&r| matches!(seed.raw.cell_value(t.rows[r][0]), crate::types::V::Str(ref s) if s.starts_with('_')))
+        .collect();
+    let r = if !own.is_empty() && rng.chance(2, 3) { *rng.pick(&own) } else { rng.usize(n) };
+    let dup = rng.chance(1, 4);
+    let mut out = Vec::with_capacity(data.len());
+    let mut off = 0usize;
+    for w in &widths {
+        for row in 0..n {
+            let cell = &data[off + row * w..off + (row + 1) * w];
+            if row == r {
+                if dup {
+                    out.extend_from_slice(cell);
+                    out.extend_from_slice(cell);
+                }
+            } else {
+                out.extend_from_slice(cell);
+            }
+        }
+        off += w * n;
+    }
+    let first = format!("{:?}", t.rows[r].iter().take(3).map(|c| seed.raw.cell_value(*c)).collect::<Vec<_>>());
+    let res = replace_stream(&seed.bytes, &table_raw_name(tname), &out)?;
+    Some((res, format!("{} row {} {} {}", tname, r, first.chars().take(60).collect::<String>(), if dup { "duplicated" } else { "removed" })))
+}
+
 fn corrupt_propset(seed: &Seed, rng: &mut Rng) -> Option<(Vec<u8>, String)> {
     let mut ps = seed.raw.summary_raw.clone()?;
     if ps.len() < 56 {
@@ -460,7 +595,11 @@ pub fn make_input(seeds: &[Seed], seed: u64, case: u64) -> (Vec<u8>, String, &'s
         let r = match rng.below(10) {
             0..=2 => corrupt_cell(s, &mut rng).map(|x| (x, "cell")),
             3 => corrupt_stream_shape(s, &mut rng).map(|x| (x, "stream-shape")),
-            4 => corrupt_pool(s, &mut rng).map(|x| (x, "pool")),
+            4 => match rng.below(3) {
+                0 => corrupt_pool(s, &mut rng).map(|x| (x, "pool")),
+                1 => corrupt_pool_text(s, &mut rng).map(|x| (x, "pool-text")),
+                _ => corrupt_catalog_rows(s, &mut rng).map(|x| (x, "catalog-rows")),
+            },
             5 | 6 => corrupt_propset(s, &mut rng).map(|x| (x, "propset")),
             7 => corrupt_misc(s, &mut rng).map(|x| (x, "misc")),
             _ => Some((byte_level(seeds, &mut rng), "bytes")),
@@ -699,7 +838,23 @@ pub fn worker_main(args: &[String]) -> i32 {
         let _ = std::fs::write(&progress, format!("{}", case));
         let (bytes, what, class) = make_input(&seeds, seed, case);
         let mut stats = ExerciseStats { opened: false, calls: 0 };
+        crate::allocmon::reset();
         let r = exercise(&bytes, case, &mut stats);
+        // a single allocation request of >= 1 GiB for an input of a few hundred KiB: driven by a length field
+        let huge = crate::allocmon::largest();
+        if huge > 0 && bytes.len() < (64 << 20) {
+            rep.count("huge_allocation_requests");
+            rep.violation(
+                format!("C09/huge-allocation/{}", if huge >= 0xFFFF_0000 { "~4GiB" } else if huge >= (2 << 30) { ">=2GiB" } else { ">=1GiB" }),
+                format!(
+                    "a single allocation of {} bytes was requested while handling an input of {} bytes ({}); where that much memory is not available the process aborts, on 32-bit targets it is a capacity-overflow panic",
+                    huge,
+                    bytes.len(),
+                    what
+                ),
+                json!({"kind": "case", "seed": seed, "tier": tier, "case": case}),
+            );
+        }
         rep.add("api_calls", stats.calls);
         rep.count(&format!("inputs_{}", class));
         if stats.opened {
